@@ -6,6 +6,7 @@ import (
 	"fmt"
 	"math/rand"
 	"strconv"
+	"strings"
 
 	"verif/harness/internal/abs"
 	"verif/harness/internal/read"
@@ -214,6 +215,32 @@ func vndbig(args []string) error {
 		bad = append(bad, pad...)
 		bad = append(bad, "2]\n[3]\n"...)
 		cases = append(cases, nd{text: bad, valid: false, desc: fmt.Sprintf("a document spanning two lines with %d bytes of white space around the newline, after %d bytes", len(pad), len(bad))})
+	}
+	// two documents on ONE line, the first one closing exactly where an index buffer is flushed (its closing bracket as the
+	// 1405th..1417th structural, at every position of its 64-byte block), more than one block of input after it: must be
+	// rejected whatever separates them (nothing, blanks, tab + CR); with a line feed instead it is two documents
+	{
+		zero := abs.Value{K: '#', Lit: "0"}
+		for n := 700; n <= 706; n++ {
+			elems := make([]abs.Value, n+1)
+			for i := range elems {
+				elems[i] = zero
+			}
+			first := abs.Value{K: 'a', Arr: elems}
+			second := abs.Value{K: 'a', Arr: []abs.Value{{K: '#', Lit: "2"}}}
+			for pad := 0; pad <= 70; pad++ {
+				head := "[" + strings.Repeat("0,", n) + "0" + strings.Repeat(" ", pad) + "]"
+				tail := "[" + strings.Repeat(" ", 70) + "2]"
+				for _, sep := range []string{"", " ", "\t\r"} {
+					cases = append(cases, nd{text: []byte(head + sep + tail), valid: false,
+						desc: fmt.Sprintf("two documents on one line, the first closing as structural #%d with %d blanks before the bracket, separator %q", 2*n+3, pad, sep)})
+				}
+				if pad%7 == 0 {
+					cases = append(cases, nd{text: []byte(head + "\n" + tail), want: []abs.Value{first, second}, valid: true,
+						desc: fmt.Sprintf("two lines, the first closing as structural #%d with %d blanks before the bracket", 2*n+3, pad)})
+				}
+			}
+		}
 	}
 	for _, avx512 := range run.Kernels() {
 		run.SetKernel(avx512)
